@@ -273,6 +273,41 @@ def part_malformed(rng, res):
                     res["violations"].append(dict(what="a malformed option value was accepted", key=f"malformed:{opt}:{route}", option=opt, string=s, route=route))
 
 
+def part_toml_bare(rng, res):
+    """TOML values written without quotes (numbers): a timeout keeps its default unit (milliseconds), exactly like the same number
+    quoted or on the command line; structured options given as a bare number are either rejected or parsed like the quoted form —
+    never stored raw"""
+    acts = {"solver_timeout_assertion": cfgmod.ParseTimeout, "solver_timeout_branching": cfgmod.ParseTimeout, "panic_error_codes": cfgmod.ParseErrorCodes,
+            "default_array_lengths": cfgmod.ParseCSVInt, "default_bytes_lengths": cfgmod.ParseCSVInt}
+    for opt, act in acts.items():
+        for v in [0, 1, 2, 100, 1500, 30000, 1.5, 0.5, 2500.0]:
+            if isinstance(v, float) and act is not cfgmod.ParseTimeout:
+                continue
+            res["counters"]["evaluations"] += 1
+            res["counters"]["toml_bare_values"] += 1
+            key = opt.replace("_", "-")
+            try:
+                quoted = toml_parser().parse_str(f'[global]\n{key} = "{v}"\n')[opt]
+            except (Exception, SystemExit):
+                quoted = None
+            try:
+                bare = toml_parser().parse_str(f"[global]\n{key} = {v}\n")[opt]
+            except (Exception, SystemExit):
+                res["counters"]["toml_bare_rejected"] += 1
+                continue
+            if act is cfgmod.ParseTimeout:
+                want = ref_parse_timeout(str(v) if not isinstance(v, float) or v != int(v) else str(v))
+                want = ref_parse_timeout(repr(v)) if want is None else want
+                if want is None or abs(bare - want) > 1e-9 * max(1, abs(want)):
+                    res["violations"].append(dict(what="an unquoted TOML timeout lost its default unit / was parsed differently from the quoted value", key=f"toml-bare:{opt}", value=v, got=bare, want=want, quoted=quoted))
+                else:
+                    res["counters"]["toml_bare_equal_to_quoted"] += 1
+            elif bare != quoted or type(bare) is not type(quoted):
+                res["violations"].append(dict(what="a structured option given as a bare TOML number was stored unparsed", key=f"toml-bare:{opt}", value=v, got=repr(bare), quoted=repr(quoted)))
+            else:
+                res["counters"]["toml_bare_equal_to_quoted"] += 1
+
+
 # ---------------------------------------------------------------------------- part 3
 def ref_natspec(text):
     out = ""
@@ -364,6 +399,7 @@ def worker(task):
     elif kind == "fixed":
         part_solver_command(rng, res)
         part_malformed(rng, res)
+        part_toml_bare(rng, res)
     if kind == "prec" and idx == 0:
         res["samples"].append(dict(kind="precedence", note="stack of layers (source, overrides) resolved for every option in OPTIONS"))
     return res
@@ -381,6 +417,7 @@ def main():
         part_roundtrip(random.Random(0), res, 300)
         part_solver_command(random.Random(0), res)
         part_malformed(random.Random(0), res)
+        part_toml_bare(random.Random(0), res)
         part_precedence(random.Random(0), res, 300)
         run.merge(res)
         run.finish()
@@ -400,6 +437,7 @@ def main():
     run.require("malformed_rejected", 50)
     run.require("entrypoint_reads", 1000)
     run.require("values:timeout", 1000)
+    run.require("toml_bare_equal_to_quoted", 10)
     run.finish()
 
 
